@@ -197,3 +197,108 @@ func MustFlagGlobal_map(k string) { table[k] = 1 }
 
 func MustPassGlobal_read(k string) int { return table[k] + counter }
 
+
+// ---- E1 division facts, merge splitting, constant package-level tables ----
+
+// n = len(b)/4 whole words, word i at b[4*i : 4*i+4]
+func MustPass_bounds_slice_quotient(b []byte) (out []uint32) {
+	n := len(b) / 4
+	for i := 0; i < n; i++ {
+		out = append(out, binary.BigEndian.Uint32(b[4*i:4*i+4]))
+	}
+	return out
+}
+
+// one word too many
+func MustFlag_bounds_slice_quotient(b []byte) (out []uint32) {
+	n := len(b)/4 + 1
+	for i := 0; i < n; i++ {
+		out = append(out, binary.BigEndian.Uint32(b[4*i:4*i+4]))
+	}
+	return out
+}
+
+// the address length chosen by a switch, the bounds computed from it (xt/ssa/split.go)
+func MustPass_bounds_slice_switchlen(b []byte) []byte {
+	if len(b) < 1 {
+		return nil
+	}
+	var n int
+	switch b[0] {
+	case 7:
+		n = 4
+	case 8:
+		n = 16
+	default:
+		return nil
+	}
+	if len(b) < 8+2*n {
+		return nil
+	}
+	return b[8+n : 8+2*n]
+}
+
+func MustFlag_bounds_slice_switchlen(b []byte) []byte {
+	if len(b) < 1 {
+		return nil
+	}
+	var n int
+	switch b[0] {
+	case 7:
+		n = 4
+	case 8:
+		n = 16
+	default:
+		return nil
+	}
+	if len(b) < 8+n {
+		return nil
+	}
+	return b[8+n : 8+2*n]
+}
+
+type fixLayout struct {
+	addrLen int
+	total   int
+}
+
+// a constant package-level table consulted by the decoder (xt/ssa/consttab.go)
+var fixLayouts = map[uint8]fixLayout{
+	7: {addrLen: 4, total: 16},
+	8: {addrLen: 16, total: 40},
+}
+
+func MustPass_bounds_slice_tablelen(b []byte) []byte {
+	if len(b) < 1 {
+		return nil
+	}
+	l, ok := fixLayouts[b[0]]
+	if !ok {
+		return nil
+	}
+	if len(b) < l.total {
+		return nil
+	}
+	return b[8+l.addrLen : l.total]
+}
+
+// the same decoder over a table that is written elsewhere is not decided by the table's literal
+var fixLayoutsMutable = map[uint8]fixLayout{
+	7: {addrLen: 4, total: 16},
+}
+
+func FixSetLayout(k uint8, l fixLayout) { fixLayoutsMutable[k] = l }
+
+func MustFlag_bounds_slice_tablelen(b []byte) []byte {
+	if len(b) < 1 {
+		return nil
+	}
+	l, ok := fixLayoutsMutable[b[0]]
+	if !ok {
+		return nil
+	}
+	if len(b) < l.total {
+		return nil
+	}
+	return b[8+l.addrLen : l.total]
+}
